@@ -10,7 +10,7 @@ run_demo() { (cd "$wt" && PYTHONPATH=/verif/harness/shim:"$wt" timeout 600 /venv
 run_tests() { (cd "$wt" && PYTHONPATH=/verif/harness/shim:"$wt" /venv/bin/python -m pytest -q -p no:cacheprovider -p no:zarr --no-cov -x -q $tests 2>&1 | grep -E "passed|failed" | tail -1); }
 run_tests_full() { (cd "$wt" && PYTHONPATH=/verif/harness/shim:"$wt" /venv/bin/python -m pytest -q -p no:cacheprovider -p no:zarr --no-cov -q -rf $tests 2>&1 | grep -E "^FAILED|^ERROR|passed|failed" | sed -e 's/ - .*//' -e 's/ in [0-9.]*s.*//' -e 's/, [0-9]* warnings//' | sort); }
 d0=$(run_demo); t0=$(run_tests_full)
-git -C "$wt" apply "$dir/patch.diff" || { echo "PATCH DOES NOT APPLY"; exit 2; }
+git -C "$wt" apply "$dir/patch.diff" 2>/dev/null || git -C "$wt" apply --3way "$dir/patch.diff" 2>/dev/null || { echo "PATCH DOES NOT APPLY"; exit 2; }
 d1=$(run_demo); t1=$(run_tests_full)
 echo "demo without=$d0 with=$d1"
 if [ "$t0" == "$t1" ]; then echo "tests: identical outcome with and without ($(echo "$t0" | tail -1))"; else echo "tests DIFFER:"; diff <(echo "$t0") <(echo "$t1") | head; fi
